@@ -762,6 +762,12 @@ fn check_sem_case(ctx: &mut Ctx, w: &World, g: &Gen, q: &Q, text: &str) {
 /// tokens of a random well-formed operand (`WFOpd`) for the Lean printer
 fn lean_opd_tokens(rng: &mut Rng, depth: u32, out: &mut Vec<String>) {
     const VOC: &[&str] = &["a", "b", "abc", "x1", "ANDROID", "ORx", "NOTE", "INDIA", "IN2", "AN", "O", "NO", "42", "Zed", "andor"];
+    const PHR: &[&str] = &["a b", "x", "", "it's", "a  b:c", "AND", "(x) +y", " b OR c ", "caf\u{e9} x", "a*", "t~2", "[a TO b]", "IN [a]"];
+    if rng.chance(1, 5) {
+        out.push("p".into());
+        out.push(crate::model::hex(rng.pick(PHR).as_bytes()));
+        return;
+    }
     if depth == 0 || rng.chance(3, 5) {
         out.push("w".into());
         out.push(crate::model::hex(rng.pick(VOC).as_bytes()));
